@@ -20,14 +20,20 @@ def gen_demux_case(ctx):
     if rng.random() < 0.15 and len(names) > 1:
         names[1] = names[0]          # duplicate adapter name
     seqs = ["AAAGGGCCC", "TTTGGGAAC", "GATTACAGA"]
-    argv = ["--no-index"]
+    argv = ["--no-index"] if rng.random() < 0.7 else []
+    # the same sequence under two names (a re-run of a sample, a barcode shared by two projects): every *name* still gets its file
+    same = len(names) > 1 and rng.random() < 0.2
+    seqs1 = [seqs[0] if (same and i == 1) else seqs[i] for i in range(3)]
+    fl = rng.choice(["-a", "-g"])
     for i, n in enumerate(names):
-        argv += [rng.choice(["-a", "-g"]), f"{n}={seqs[i]}"]
+        argv += [fl if same else rng.choice(["-a", "-g"]), f"{n}={seqs1[i]}"]
     names2 = []
     if paired and (comb or rng.random() < 0.5):
         names2 = ["b0", "b1"][: rng.randint(1, 2)]
+        same2 = len(names2) > 1 and rng.random() < 0.2
+        fl2 = rng.choice(["-A", "-G"])
         for i, n in enumerate(names2):
-            argv += [rng.choice(["-A", "-G"]), f"{n}={seqs[2 - i]}"]
+            argv += [fl2 if same2 else rng.choice(["-A", "-G"]), f"{n}={seqs[2] if same2 else seqs[2 - i]}"]
     x = rng.random()
     if x < 0.3:
         argv.append("--discard-untrimmed")
